@@ -3,6 +3,7 @@
   (source: the MemMapFs model; the pattern is an arbitrary predicate on names).
 -/
 import AferoVerif.Model.RegexpFs
+import AferoVerif.Generated.Facts
 namespace AferoVerif.C13
 open AferoVerif
 
@@ -132,5 +133,16 @@ example : (reStep predTxt { m := src0 } (.stat "/d/a.txt".toList)).2 = .info "a.
     hides nothing, and a spelling whose raw text matches while its cleaned form names another file
     would get through: the theorem's premise `pred p = false` is about the name as passed. -/
 example : (reStep (fun _ => true) { m := src0 } (.stat "/d/secret.dat".toList)).2 ≠ .err .notexist := by decide
+
+/-! ### tie to the source: which guard every method of regexpfs.go calls -/
+
+/-- per exported method of `RegexpFs`: number of calls of `dirOrMatches` and of `matchesName`, as
+    extracted from the current regexpfs.go. It is the structure `reStep` models: metadata methods,
+    Stat, OpenFile and Remove go through `dirOrMatches`; Create, Open (after its own IsDir), RemoveAll
+    and both arguments of Rename through `matchesName`; Mkdir/MkdirAll are not filtered. -/
+theorem re_methods_are_source : Generated.reCalls =
+    [("Chmod", [1, 0]), ("Chown", [1, 0]), ("Chtimes", [1, 0]), ("Create", [0, 1]), ("Mkdir", [0, 0]),
+     ("MkdirAll", [0, 0]), ("Name", [0, 0]), ("Open", [0, 1]), ("OpenFile", [1, 0]), ("Remove", [1, 0]),
+     ("RemoveAll", [0, 1]), ("Rename", [0, 2]), ("Stat", [1, 0])] := by decide
 
 end AferoVerif.C13
